@@ -20,8 +20,8 @@ CHANNELS = ["A", "B"]
 CHANSETS = [["A"], ["B"], ["A", "B"], []]  # [] = any channel
 
 # operation kinds
-ADD, PULL, RUN, FINISH, KILL, TICK, DISCONNECT, WAIT, READD, SETINFO, RESTORE = range(11)
-OPNAMES = ["add", "pull", "run", "finish", "kill", "tick", "disconnect", "wait", "readd", "setinfo", "restore"]
+ADD, PULL, RUN, FINISH, KILL, TICK, DISCONNECT, WAIT, READD, SETINFO, RESTORE, FINISH_ID = range(12)
+OPNAMES = ["add", "pull", "run", "finish", "kill", "tick", "disconnect", "wait", "readd", "setinfo", "restore", "finish-id"]
 FINISH_ERRORS = [None, "x", ""]
 
 
@@ -193,7 +193,14 @@ class Sim:
 
     def _bind(self):
         self.wq = self.db.workq
-        self.Handler = type("Handler", (self.qserve.QPlugin,), {"workq": self.wq, "db": self.db})
+        # NB: not type(name, bases, {...}): CrossHair's model of the 3-argument type() copies the dict's values
+        class Handler(self.qserve.QPlugin):
+            pass
+
+        Handler.workq = self.wq
+        Handler.db = self.db
+        assert Handler.workq is self.wq
+        self.Handler = Handler
         self.client = self.Handler()
 
     # ------------------------------------------------------------------ plumbing
@@ -412,13 +419,17 @@ class Sim:
                 r.state = "missing"
                 r.cause = "hand-off overwritten by a later push to the same blocked puller"
 
-    def op_finish(self, widx, which, err):
+    def op_finish(self, widx, which, err, by_id=False):
         assume(0 <= widx < self.nworkers)
         w = self.workers[widx]
         assume(not w.blocked)
-        assume(0 <= which < len(w.held))
         assume(0 <= err < len(FINISH_ERRORS))
-        jid = w.held[which]
+        if by_id:
+            jid = which  # canonical prefixes name the job directly
+            assume(jid in w.held)
+        else:
+            assume(0 <= which < len(w.held))
+            jid = w.held[which]
         error = FINISH_ERRORS[err]
         result = None if error else {"r": jid}
         self.history.append(["finish", widx, jid, error])
@@ -577,6 +588,8 @@ class Sim:
             self.op_setinfo(a, b)
         elif op == RESTORE:
             self.op_restore()
+        elif op == FINISH_ID:
+            self.op_finish(a, b, c, by_id=True)
         else:
             assume(False)
 
